@@ -19,7 +19,7 @@ import (
 )
 
 // C06 corpus: which generators feed the determinism check.
-var c06Sources = []string{"X06", "C05", "X06", "C03", "C17", "X06", "C07", "C10", "C18", "C14", "C12", "C01", "C04"}
+var c06Sources = []string{"X06", "C05", "X06", "C03", "C17", "X06", "C07", "C10", "C18", "C14", "C12", "C01", "C04", "C08", "X06", "C16", "C15", "C19", "C02", "C13", "C09"}
 
 type c06Meta struct {
 	Case      int      `json:"case"`
